@@ -210,7 +210,11 @@ theorem chisq_cdf_std [SF ℝ] (ν x : ℝ) :
     ChiSquared.cdf (⟨ν, ⟨ν / 2, 1 / 2⟩⟩ : ChiSquared ℝ) x
       = if x ≤ 0 then 0 else SF.gamma_lr (ν / 2) (x * (1 / 2)) := by
   unfold ChiSquared.cdf Gamma.cdf
-  simp only [rfun_isInf, Bool.false_eq_true, and_false, if_false, lit_zero, lit_one]
+  simp only [rfun_isInf, Bool.false_eq_true, and_false, if_false, lit_zero, lit_one, real_beq]
+  split_ifs with h1 h2
+  · rfl
+  · exact absurd h2 (mul_ne_zero (by intro h; exact h1 h.le) (by norm_num))
+  · rfl
 
 theorem fs_cdf_std [SF ℝ] (d1 d2 x : ℝ) :
     FisherSnedecor.cdf (⟨d1, d2⟩ : FisherSnedecor ℝ) x
